@@ -66,6 +66,40 @@ fn read_all(b: &jammdb::Bucket, prof: &Profile, nkeys: i64, rf: &Ref, at: &str, 
     if scan != exp {
         problems.push(json!({"kind":"scan","at":at,"got":scan,"exp":exp}));
     }
+    // seek of every key: existence, position (the key, or an immediate neighbour of an absent key), and
+    // every later entry in order
+    for k in 1..=nkeys {
+        let mut c = b.cursor();
+        let exists = c.seek(prof.key(k));
+        let mut got: Vec<i64> = Vec::new();
+        for d in c {
+            match d {
+                Data::KeyValue(kv) => got.push(prof.key_id(kv.key())),
+                _ => got.push(-9),
+            }
+            if got.len() > 4 * nkeys as usize + 8 {
+                break;
+            }
+        }
+        let present = rf.contains_key(&k);
+        let below = rf.range(..k).next_back().map(|(x, _)| *x);
+        let above = rf.range(k + 1..).next().map(|(x, _)| *x);
+        let cur = got.first().cloned();
+        let pos_ok = if present {
+            cur == Some(k)
+        } else if rf.is_empty() {
+            cur.is_none()
+        } else {
+            cur.is_some() && (cur == below || cur == above)
+        };
+        let tail_ok = match cur {
+            Some(c0) => got == rf.range(c0..).map(|(x, _)| *x).collect::<Vec<i64>>(),
+            None => true,
+        };
+        if exists != present || !pos_ok || !tail_ok {
+            problems.push(json!({"kind":"seek","at":at,"key":k,"exists":exists,"got":got,"below":below,"above":above}));
+        }
+    }
 }
 
 /// one write transaction: ops, with read-back after each; commit
